@@ -12,6 +12,7 @@ import FlexModel.Net.LagLemmas
 import FlexModel.Net.SnAlloc
 import FlexModel.Net.LsReply
 import FlexModel.Net.Refresh
+import FlexModel.Net.TimersLemmas
 import Generated.NetFacts
 import Generated.Locks
 
@@ -825,5 +826,92 @@ theorem refresh_split_loses_entry_witness :
     (Refresh.run false (fun _ => true) Refresh.exRole [3] [0, 1, 0]).pc 1 = .done ∧
     Refresh.exRole 1 = .insert 5 ∧
     5 ∉ (Refresh.run false (fun _ => true) Refresh.exRole [3] [0, 1, 0]).tbl := by decide
+
+/-! ### Round 6: clock skew, abandoned lookups, the LS packet buffer and the link layer -/
+
+/-- `LocationTable._age_ms` as re-read from the source: the guard `if tst > current_time: return 0` is in front of the
+subtraction.  Dropping it (seeded change C01-m10) re-opens this obligation. -/
+theorem age_guard_extracted : Generated.NetFacts.ageClampsFuture = true := by decide
+
+/-- **A station whose clock runs ahead stays known.**  For the shape of `_age_ms` re-read from the source, every local
+clock value `now`, every skew `d` (1 ms up to 2^31 - 1 ms, timestamps modulo 2^32) and every entry lifetime:
+`refresh_table` - which runs right after every reception - keeps the location table entry whose position vector is
+stamped `now + d`.  This is what the station model's monotone `known` list (`learn`) relies on when stations'
+clocks differ. -/
+theorem skewed_station_stays_known (life now d : Nat) (hn : now < FlexModel.Geo.W) (hd : 0 < d)
+    (hd2 : d < FlexModel.Geo.HALF) :
+    keeps Generated.NetFacts.ageClampsFuture life now ((now + d) % FlexModel.Geo.W) = true := by
+  have h : Generated.NetFacts.ageClampsFuture = true := by decide
+  rw [h]
+  exact ahead_kept life now d hn hd hd2
+
+/-- the guard is needed: without it a position vector stamped ONE millisecond ahead is purged at every clock value
+(itsGnLifetimeLocTE = 20 s) -/
+theorem unclamped_future_is_purged (now : Nat) (hn : now < FlexModel.Geo.W) :
+    keeps false 20000 now ((now + 1) % FlexModel.Geo.W) = false := by
+  have e := unclamped_age_of_future now hn
+  unfold keeps
+  rw [e]
+  decide
+
+example : keeps true 20000 5 ((5 + 1500) % FlexModel.Geo.W) = true ∧ keeps false 20000 5 ((5 + 1500) % FlexModel.Geo.W) = false := by
+  decide
+
+/-- `Router._ls_retransmit` as re-read from the source: the give-up branch REMOVES the lookup from
+`_ls_retransmit_counters` (key presence = "lookup running" in `gn_ls_request`) and from `_ls_packet_buffers`.
+Seeded change C01-m12 (`[addr] = 0`) re-opens this obligation. -/
+theorem ls_giveup_forgets_the_lookup : Generated.NetFacts.lsGiveUpForgetsLookup = true := by decide
+
+/-- the give-up branch for the shape re-read from the source -/
+def giveUpShape (forgets : Bool) (s : Station) (de : Addr) : Station :=
+  if forgets then lsGiveUp s de else lsGiveUpStale s de
+
+/-- **After an abandoned lookup a unicast request starts a NEW lookup**: for the give-up branch as extracted, every
+station state, every request for a destination the station has no position of: exactly one LS request for the
+destination is transmitted (the request is not merely queued behind a lookup that no longer runs). -/
+theorem guc_after_abandoned_lookup_starts_new_lookup (s : Station) (de : Addr) (r : Req)
+    (hr : r.transport = .guc de) (hk : s.known.contains de = false) :
+    ((request (giveUpShape Generated.NetFacts.lsGiveUpForgetsLookup s de) r).2.map (·.kind)) = [.lsReq de] := by
+  have h : Generated.NetFacts.lsGiveUpForgetsLookup = true := by decide
+  rw [h]
+  exact request_after_giveUp s de r hr hk
+
+/-- non-vacuity, and the shape matters: with the lookup left registered the request transmits nothing -/
+example :
+    let s : Station := { addr := 1, pos := 7, pending := [(2, [])] }
+    let r : Req := { btpB := true, dport := 2001, info := 0, payload := [1], transport := .guc 2, hopLimit := 10,
+                     scfBlocked := false }
+    ((request (giveUpShape true s 2) r).2.map (·.kind)) = [.lsReq 2] ∧ (request (giveUpShape false s 2) r).2 = [] := by
+  decide
+
+/-- `Router.gn_ls_request` as re-read from the source: the packet buffer of a new lookup (with the triggering request)
+is stored under `_ls_lock` BEFORE the LS request is handed to the link layer; nothing after the send touches the
+buffer or the request.  Seeded change C01-m11 re-opens this obligation. -/
+theorem ls_buffer_opened_before_request_is_sent : Generated.NetFacts.lsBufferBeforeSend = true := by decide
+
+/-- `gn_ls_request` (requesting thread: locked section A1, send S, locked section A2) against the reply handler R of the
+receive thread (pops the buffer under `_ls_lock`, flushes it), at lock-section granularity.  `early`: the buffer is
+created in A1 (the source's shape), otherwise in A2.  `replyFirst`: R runs between S and A2 (the reply is processed
+before `LinkLayer.send` returns / before the requesting thread goes on) - R cannot run before S: the reply answers
+the request.  Result: (requests flushed by R, requests left in a buffer nobody flushes). -/
+def lsRace (early replyFirst : Bool) (r : Nat) : List Nat × List Nat :=
+  let bufA1 : List Nat := if early then [r] else []
+  if replyFirst then
+    -- S, R (pops bufA1), A2 (late shape: appends r to a fresh buffer)
+    (bufA1, if early then [] else [r])
+  else
+    -- S, A2, R (pops everything)
+    (if early then bufA1 else [r], [])
+
+/-- **The triggering request is flushed by the reply whatever the interleaving**, for the shape of `gn_ls_request`
+re-read from the source: both schedules of the reply handler against the requesting thread's second section. -/
+theorem ls_reply_flushes_triggering_request (replyFirst : Bool) (r : Nat) :
+    lsRace Generated.NetFacts.lsBufferBeforeSend replyFirst r = ([r], []) := by
+  have h : Generated.NetFacts.lsBufferBeforeSend = true := by decide
+  rw [h]
+  cases replyFirst <;> rfl
+
+/-- the shape matters: buffer created after the send, reply processed in between - the request is stranded -/
+theorem ls_buffer_after_send_strands_request_witness : lsRace false true 7 = ([], [7]) := by decide
 
 end Props.C01
